@@ -48,6 +48,10 @@ def run(ctx):
         X.OVERLAY = {}
     _envelopes(ctx)
     _every_piece(ctx)
+    _framing_total(ctx)
+    # 3.0-only constructs under a nested ver:"2.0" header are refused by the row validation of the Grid the reader fills
+    from . import _grid
+    _grid.extend_own(ctx, _grid.grid_methods(ctx), 'C09.D4', want=('validate',))
     _regex_termination(ctx)
     _error_stops(ctx)
 
@@ -97,6 +101,59 @@ def _error_stops(ctx):
                 return
     ctx.ob('C09.D3', 'no element reachable from the scalar alternations uses an error stop (`-`)%s (%d nodes)'
            % (' / parse_scalar converts fatal parse errors too' if covers_fatal else '', n), True, FP)
+
+
+def _framing_total(ctx):
+    """(D1) parser.parse itself (decode, framing) sits outside the try of zincparser.parse_grid, so it must not raise on
+    any text: indexing the text with a constant position (`text[0]`) fails with IndexError on the empty document unless
+    the same test first establishes that the text is not empty."""
+    m = ctx.model
+    try:
+        fn = m.func('parser', 'parse')
+    except AnalysisError as e:
+        ctx.error('C09.D1', str(e))
+        return
+    tparam = fn.args.args[0].arg
+    text_vars = {tparam}
+    for a in ast.walk(fn):
+        if isinstance(a, ast.Assign) and len(a.targets) == 1 and isinstance(a.targets[0], ast.Name) \
+                and any(isinstance(x, ast.Name) and x.id in text_vars for x in ast.walk(a.value)) \
+                and isinstance(a.value, (ast.Call, ast.Name, ast.BinOp, ast.Subscript)) \
+                and not (isinstance(a.value, ast.Call) and norm(a.value.func) in ('json.loads',)) \
+                and not isinstance(a.value, (ast.ListComp, ast.List)):
+            if not (isinstance(a.value, ast.Call) and norm(a.value.func).endswith('.split')):
+                text_vars.add(a.targets[0].id)
+    bad = None
+    n = 0
+    for sub in ast.walk(fn):
+        if isinstance(sub, ast.Subscript) and isinstance(sub.value, ast.Name) and sub.value.id in text_vars \
+                and isinstance(sub.ctx, ast.Load) and not isinstance(sub.slice, ast.Slice):
+            n += 1
+            v = sub.value.id
+            guarded = False
+            p = getattr(sub, '_parent', None)
+            child = sub
+            while p is not None and p is not fn:
+                if isinstance(p, ast.BoolOp) and isinstance(p.op, ast.And):
+                    idx = p.values.index(child) if child in p.values else len(p.values)
+                    if any(norm(x) in (v, 'len(%s)' % v, 'len(%s) > 0' % v, '%s != \'\'' % v) for x in p.values[:idx]):
+                        guarded = True
+                if isinstance(p, ast.If) and child in p.body and any(
+                        t in norm(p.test) for t in (v + ' and', 'len(%s)' % v)) or (isinstance(p, ast.If) and norm(p.test) == v and child in p.body):
+                    guarded = True
+                child = p
+                p = getattr(p, '_parent', None)
+            if not guarded:
+                bad = sub
+    if bad is not None:
+        ctx.violation('C09.D1', 'hszinc/parser.py::parse', norm(bad),
+                      "hszinc.parse('') (and parse(b'')): `%s` is evaluated on the empty text outside any try block and raises "
+                      "IndexError -- neither a grid list nor a ZincParseException" % norm(bad),
+                      'parse() indexes the document text at a fixed position without first checking that it is not empty',
+                      file='hszinc/parser.py', line=bad.lineno, engine='E8')
+    else:
+        ctx.ob('C09.D1', 'parse() never indexes the document text at a fixed position unguarded (%d subscripts)' % n, True,
+               'hszinc/parser.py:%d' % fn.lineno)
 
 
 def _regex_termination(ctx):
